@@ -277,20 +277,23 @@ impl<T> AtomicBucket<T> {
                 Err(value) => {
                     #[cfg(metrics_verif)]
                     metrics::verif::point("push.casfull.pre", &[tail.as_raw() as i64]);
+                    // Link the new block to the current tail _before_ publishing it, so that readers
+                    // can never observe the new tail without the blocks that came before it.
+                    let new_block = Owned::new(Block::new());
+                    new_block.next.store(tail, Ordering::Relaxed);
                     match self.tail.compare_exchange(
                         tail,
-                        Owned::new(Block::new()),
+                        new_block,
                         Ordering::AcqRel,
                         Ordering::Acquire,
                         guard,
                     ) {
-                        // We managed to install the block, so we need to link this new block to
-                        // the nextious block.
+                        // We managed to install the block, which is already linked to the previous
+                        // block.
                         Ok(ptr) => {
                             #[cfg(metrics_verif)]
                             metrics::verif::point("push.casfull.post", &[1, ptr.as_raw() as i64]);
                             let new_tail = unsafe { ptr.deref() };
-                            new_tail.next.store(tail, Ordering::Release);
 
                             // Now push into our new block.
                             match new_tail.push(value) {
